@@ -71,3 +71,12 @@ def fail_if(detector, level=0, **kwargs):
     probe(detector, level=level, **kwargs)
     if level == 2:
         raise ProbeError(f"probe failure at level {level}")
+
+
+def draws(detector, fail=False, **kwargs):
+    """Probe that draws from the process-wide generator (seeding replays)."""
+    import numpy as np
+    probe(detector, **kwargs)
+    detector.photon.array = np.random.random(detector.geometry.shape)
+    if fail:
+        raise ProbeError("probe failure after drawing")
